@@ -10,14 +10,19 @@ C02 — Generated Go types encode and decode exactly what the IDL declares.
   and through typedefs, includes, enums and arbitrarily nested containers."
 
 `FV.Thrift.encV` / `decV` model the emitted `Write` / `Read` code over the stream of
-TProtocol calls (the emitted code is protocol agnostic; the three byte-level protocols are
-Apache Thrift's: exercised by the correspondence runs, not modelled). `d : Defs` is ANY table
+TProtocol calls (the emitted code is protocol agnostic). The byte-level protocols are Apache
+Thrift's; the BINARY and the COMPACT one are modelled as the emitted code uses them
+(`FV.Model.BinaryProtocol`, `FV.Model.CompactProtocol`: bytes of every write call, result of
+every read call, the compact protocol's field-id state) and the round trip is proved down to
+the bytes (second half of this file); the JSON protocol is exercised by the correspondence
+runs, not modelled. `d : Defs` is ANY table
 of typedefs, enums and struct-likes (one table for the whole multi-file program, names file
 qualified); `WT d n t v` = `v` is a well-typed value of declared type `t` in canonical form
 (the state an emitted Go struct can be in), nesting depth ≤ `n`. Theorems are for all `d`, `n`.
 -/
 import FV.Model.Thrift
 import FV.Proofs.Thrift
+import FV.Proofs.ThriftBytes
 
 namespace FV.C02
 open FV FV.Thrift
@@ -164,5 +169,140 @@ example : (encV exDefs 8 (.struct "m/Outer") exVal).isOk = true := by decide
 
 example : WT exDefs 8 (.struct "m/Outer") exVal := by
   simp [WT, exDefs, exVal, resolve, resolveN, lookupTypedef, lookupStruct, normFields, lookupVal]
+
+
+/-! ## Down to the bytes: the binary and the compact protocol
+
+`Event` = one TProtocol WRITE call, `Call` = one READ call, `callOf e` = the read call that consumes
+what the write call `e` produced (the emitted `Read` mirrors the emitted `Write` call for call; it
+is the kind check of the harness's replaying protocol). `binWrite`/`binRead` and
+`cmpWrite`/`cmpRead` model Apache Thrift Go v0.19.0's `TBinaryProtocol` / `TCompactProtocol` in
+their default configuration. Integers are Go's int8/16/32/64: two's complement, explicit ranges. -/
+
+/-- Go's fixed-width conversions round-trip on the range of the signed type (8, 16, 32, 64 bits). -/
+theorem c02_twos_complement_roundtrip :
+    (∀ z : Int, -128 ≤ z ∧ z < 128 → toS8 (toU8 z) = z) ∧
+    (∀ z : Int, -32768 ≤ z ∧ z < 32768 → toS16 (toU16 z) = z) ∧
+    (∀ z : Int, -2147483648 ≤ z ∧ z < 2147483648 → toI32 (toU32 z) = z) ∧
+    (∀ z : Int, -9223372036854775808 ≤ z ∧ z < 9223372036854775808 → toS64 (toU64 z) = z) := by
+  refine ⟨fun z h => toS8_toU8 z h, fun z h => ?_, fun z h => ?_, fun z h => ?_⟩
+  · simp only [toS16, toU16]; omega
+  · simp only [toI32, toU32]; omega
+  · simp only [toS64, toU64]; omega
+
+/-- `binary.BigEndian.PutUintN` then `UintN`: the `k` big-endian bytes of `n` denote `n mod 256^k`
+(all `k`: 2, 4 and 8 are the ones used). -/
+theorem c02_bigendian_roundtrip (k n : Nat) : beNat (beBytes k n) = n % 256 ^ k ∧ (beBytes k n).length = k :=
+  ⟨beNat_beBytes k n, beBytes_length k n⟩
+
+/-- Binary protocol, one call: every Read* method applied to the bytes the mirrored Write* method
+produced (followed by anything) returns what was written — field header = type byte + i16 id,
+stop = 0, integers big-endian two's complement, double = the 8 bytes of its IEEE bits,
+string/binary = i32 length + bytes, list/set = element type + i32 size, map = key type + value
+type + i32 size, bool = one byte, struct begin/end = nothing — and leaves what followed. -/
+theorem c02_binary_read_write (e : Event) (rest : Bytes) (h : BinFits e) :
+    binRead (callOf e) (binWrite e ++ rest) = .ok (binErase e, rest) :=
+  binRead_binWrite e rest h
+
+/-- What the protocols do not put on the wire is never looked at by the emitted `Read`: struct and
+field names, the key/value types announced by an empty map. -/
+theorem c02_read_ignores_unsent (d : Defs) (n : Nat) (t : Ty) (es : List Event) :
+    decV d n t (es.map forget) = mapR (decV d n t es) :=
+  decV_forget d n t es
+
+/-- BINARY PROTOCOL ROUND TRIP. For every definitions table, type and well-typed value within the
+depth budget whose write calls fit Go's parameter types and `MaxMessageSize`: the bytes that the
+emitted `Write` puts on the transport through the binary protocol, read through the binary protocol
+with the calls the emitted `Read` makes, give back the written calls (names excepted) and exactly
+the bytes that followed, and the emitted `Read` turns them into the value that was written,
+consuming all of them. -/
+theorem c02_binary_roundtrip (d : Defs) (n : Nat) (t : Ty) (v : Val) (es : List Event) (rest : Bytes)
+    (hwt : WT d n t v) (henc : encV d n t v = .ok es) (hfit : ∀ e ∈ es, BinFits e) :
+    binReads (es.map callOf) (binEnc es ++ rest) = .ok (es.map binErase, rest) ∧
+      decV d n t (es.map binErase) = .ok (v, []) :=
+  binary_roundtrip d n t v es rest hwt henc hfit
+
+/-- Zigzag (`int32ToZigzag`/`zigzagToInt32`, and the 64-bit pair): decoding the encoding gives the
+number back, and the encoding of an int32 / int64 fits 32 / 64 bits. -/
+theorem c02_zigzag_roundtrip (z : Int) :
+    unzigzag (zigzag z) = z ∧
+    (-2147483648 ≤ z ∧ z < 2147483648 → zigzag z < 4294967296) ∧
+    (-9223372036854775808 ≤ z ∧ z < 9223372036854775808 → zigzag z < 18446744073709551616) :=
+  ⟨zigzag_unzigzag z, zigzag_lt32 z, zigzag_lt64 z⟩
+
+/-- Varint: for EVERY `n` (no bound on the number of bytes), the read loop started at any shift and
+accumulator on the bytes `writeVarint` produced, followed by anything, adds `n·2^shift` and stops
+exactly at what followed; so `readVarint64` returns every `n < 2^64` and `readVarint32` every
+`n < 2^32`. (Induction on `n / 128`: one step per byte.) -/
+theorem c02_varint_roundtrip (n : Nat) (rest : Bytes) :
+    (∀ shift acc, uvarintDec (uvarint n ++ rest) shift acc = .ok (acc + n * 2 ^ shift, rest)) ∧
+    (n < 18446744073709551616 → readVarint64 (uvarint n ++ rest) = .ok (n, rest)) ∧
+    (n < 4294967296 → readVarint32 (uvarint n ++ rest) = .ok (n, rest)) :=
+  ⟨uvarintDec_uvarint n rest, readVarint64_uvarint n rest, readVarint32_uvarint n rest⟩
+
+/-- Compact field header: whatever the previous field id of the struct (`r.last`), both forms — the
+one-byte `delta<<4 | type` when `0 < id - last ≤ 15`, and `type` followed by the zigzag-varint id
+otherwise (larger gap, descending or equal id) — are decoded to the type of the nibble and the id,
+the id becomes the reader's previous id, and a bool nibble (1 = true, 2 = false) is kept for the
+`ReadBool` that follows. -/
+theorem c02_compact_field_header_roundtrip (r : CR) (nib tt : Nat) (id : Int) (rest : Bytes)
+    (hl : InR16 r.last) (hid : InR16 id) (hn0 : nib ≠ 0) (hn : nib < 16) (htt : ttypeOf nib = some tt) :
+    cmpRead r .fieldBegin (cmpFieldHdr r.last nib id ++ rest) =
+      .ok (.fb "" tt id, rest, ⟨r.stack, id, if nib = 1 ∨ nib = 2 then some (nib = 1) else r.bool⟩) :=
+  cmpRead_fieldHdr r nib tt id rest hl hid hn0 hn htt
+
+/-- Compact protocol, one call, with the writer's and the reader's states in step (`CRel`): the read
+call returns what the mirrored write call was given — zigzag varints for i16/i32/i64, list/set
+header with the size in the high nibble (or 15 and a varint), map header = varint size and a
+key/value type byte (a single 0 for the empty map), string = varint length + bytes, double = 8 bytes
+LITTLE endian, struct begin/end = push/pop of the previous field id — leaves what followed, and the
+states are in step again. (The header of a bool field is the next theorem.) -/
+theorem c02_compact_read_write (w w' : CW) (r : CR) (e : Event) (bs rest : Bytes) (hrel : CRel w r)
+    (hfit : CmpFits e) (hnb : ∀ nm id, e ≠ .fb nm 2 id) (hw : cmpWrite w e = .ok (bs, w')) :
+    ∃ r', cmpRead r (callOf e) (bs ++ rest) = .ok (cmpErase e, rest, r') ∧ CRel w' r' :=
+  cmp_step w w' r e bs rest hrel hfit hnb hw
+
+/-- Compact protocol, bool field: `WriteFieldBegin(BOOL)` writes nothing, `WriteBool` writes the
+header with the value folded into the type nibble; `ReadFieldBegin` decodes it as a BOOL field and
+`ReadBool` returns the value without touching the input. -/
+theorem c02_compact_bool_field (w : CW) (r : CR) (id : Int) (b : Bool) (rest : Bytes) (hrel : CRel w r)
+    (hid : InR16 id) :
+    ∃ r1 r2, cmpRead r .fieldBegin (cmpFieldHdr w.last (if b then 1 else 2) id ++ rest) = .ok (.fb "" 2 id, rest, r1) ∧
+      cmpRead r1 .bool rest = .ok (.bool b, rest, r2) ∧ CRel { w with last := id, pend := none } r2 :=
+  cmp_step_boolfield w r id b rest hrel hid
+
+/-- COMPACT PROTOCOL ROUND TRIP (full: structs, bool fields, nested containers). For every
+definitions table, type and well-typed value within the depth budget whose write calls fit
+(`CmpOK`: Go's parameter types, `MaxMessageSize`, real TTypes, a BOOL field holds a bool;
+`cmpBalanced`: struct ends match struct begins): the stateful compact writer succeeds on the calls
+of the emitted `Write`; its bytes, read from the initial reader state with the calls the emitted
+`Read` makes, give back the written calls (minus names and the types of empty maps) and exactly the
+bytes that followed; and the emitted `Read` turns them into the value that was written. -/
+theorem c02_compact_roundtrip (d : Defs) (n : Nat) (t : Ty) (v : Val) (es : List Event)
+    (hwt : WT d n t v) (henc : encV d n t v = .ok es) (hok : CmpOK es) (hbal : cmpBalanced 0 es = true) :
+    ∃ bs w', cmpEnc CW.init es = .ok (bs, w') ∧
+      ∀ rest : Bytes, ∃ r', cmpReads CR.init (es.map callOf) (bs ++ rest) = .ok (es.map cmpErase, rest, r') ∧
+        decV d n t (es.map cmpErase) = .ok (v, []) :=
+  compact_roundtrip d n t v es hwt henc hok hbal
+
+/-! Non-vacuity of the byte-level hypotheses: the calls the emitted `Write` makes for `exVal`, and
+for a value with bool fields, an id gap > 15, a descending id, an i64 extreme and an empty map. -/
+def exDefs2 : Defs :=
+  { typedefs := [], enums := [],
+    structs := [⟨.struct, "m/W", "W", [⟨1, .default, "a", .bool⟩, ⟨17, .default, "b", .bool⟩, ⟨40, .default, "s", .string⟩,
+                   ⟨39, .optional, "l", .i64⟩, ⟨300, .optional, "m", .map .string (.list .i16)⟩, ⟨301, .optional, "bs", .list .bool⟩]⟩] }
+
+def exVal2 : Val :=
+  .struct [(1, .bool true), (17, .bool false), (40, .bytes [104, 105]), (39, .int (-9223372036854775808)),
+           (300, .map []), (301, .list [.bool true, .bool false])]
+
+example : ∃ es, encV exDefs 8 (.struct "m/Outer") exVal = .ok es ∧ (∀ e ∈ es, BinFits e) ∧ CmpOK es ∧ cmpBalanced 0 es = true := by
+  refine ⟨_, rfl, ?_, ?_, ?_⟩ <;> decide
+
+example : ∃ es, encV exDefs2 8 (.struct "m/W") exVal2 = .ok es ∧ (∀ e ∈ es, BinFits e) ∧ CmpOK es ∧ cmpBalanced 0 es = true := by
+  refine ⟨_, rfl, ?_, ?_, ?_⟩ <;> decide
+
+example : WT exDefs2 8 (.struct "m/W") exVal2 := by
+  simp [WT, exDefs2, exVal2, resolve, resolveN, lookupStruct, normFields, lookupVal]
 
 end FV.C02
